@@ -49,6 +49,7 @@ def xr2x(t):
     return X(XR.x_nan(t), XR.x_inf(t), XR.x_v(t))
 
 
+str_contains = z3.Function("str_contains", Str, Str, z3.BoolSort())       # `needle in text` on abstract strings
 _STR = {}
 
 
@@ -312,10 +313,18 @@ class HeapExec(NumExec):
         s.oblige(f"safety/line{node.lineno - s.fn_line}:attribute `{attr}` of None", p, base.r != NONE)
         # candidates: concrete subclasses (dynamic type) grouped by how `attr` resolves
         subs = s.schema.concrete_subclasses(cls) or [cls]
-        groups = {}
+        groups, missing = {}, []
         for c in subs:
-            res = s.resolve_attr(c, attr)
+            try:
+                res = s.resolve_attr(c, attr)
+            except Unsupported:
+                missing.append(c)
+                continue
             groups.setdefault(res, []).append(c)
+        if not groups:
+            raise Unsupported(f"attribute {cls}.{attr} is not in the schema (line {node.lineno})")
+        if missing:       # the dynamic class must be one that has the attribute (AttributeError otherwise)
+            s.oblige(f"safety/line{node.lineno - s.fn_line}:object has attribute `{attr}`", p, z3.Not(z3.Or(*[cls_of(base.r) == s.schema.ids[c] for c in missing])))
         if len(groups) == 1:
             return s.read_resolved(p, base, next(iter(groups)), node)
         val = None
@@ -355,8 +364,8 @@ class HeapExec(NumExec):
             return Bool(z3.If(c, s.boo(a, node).b, s.boo(b, node).b), False, True)
         if isinstance(a, SeqV) and isinstance(b, SeqV):
             return SeqV(z3.If(c, a.q, b.q), a.kind)
-        if isinstance(a, StrV) and isinstance(b, StrV):
-            return StrV(z3.If(c, a.t, b.t))
+        if isinstance(a, (StrV, str)) and isinstance(b, (StrV, str)):
+            return StrV(z3.If(c, s.unwrap("str", a), s.unwrap("str", b)))
         if a is None and isinstance(b, RefV):
             return RefV(z3.If(c, NONE, b.r), b.cls)
         if b is None and isinstance(a, RefV):
@@ -394,9 +403,40 @@ class HeapExec(NumExec):
         a, b = s.ev(p, e.body), s.ev(p, e.orelse)
         return s.merge(c, a, b, e)
 
+    def ev_JoinedStr(s, p, e):
+        """f-strings made of literals and string constants are evaluated; anything else is an opaque message (A-MSG)"""
+        parts = []
+        for v in e.values:
+            if isinstance(v, ast.Constant) and isinstance(v.value, str):
+                parts.append(v.value)
+            elif isinstance(v, ast.FormattedValue) and v.format_spec is None and v.conversion == -1:
+                try:
+                    x = s.ev(p.fork(), v.value)
+                except Unsupported:
+                    return "<message>"
+                if not isinstance(x, str):
+                    return "<message>"
+                parts.append(x)
+            else:
+                return "<message>"
+        return "".join(parts)
+
     def ev_BoolOp(s, p, e):
-        # `a or b` / `a and b` as values: merged by ite on the truthiness of the left operand
-        vals = [s.ev(p, v) for v in e.values]
+        # `a or b` / `a and b` as values: merged by ite on the truthiness of the left operand.  Later operands are evaluated under
+        # the short-circuit guard (their implicit safety obligations hold only when they are reached)
+        vals, base = [], len(p.pc)
+        known0 = dict(p.known)
+        for i, v in enumerate(e.values):
+            val = s.ev(p, v)
+            vals.append(val)
+            if i + 1 < len(e.values):
+                t = s.truth(val, e, p)
+                p.pc.append(t if isinstance(e.op, ast.And) else z3.Not(t))
+                if isinstance(e.op, ast.And):
+                    s.refine(p, v, True)
+        guards = p.pc[base:]
+        del p.pc[base:]
+        p.known = known0
         res = vals[-1]
         for v in reversed(vals[:-1]):
             t = s.truth(v, e, p)
@@ -428,6 +468,8 @@ class HeapExec(NumExec):
                     t = s.unwrap("str", l) == s.unwrap("str", r)
                 elif l is None and r is None:
                     return not neg
+                elif isinstance(op, (ast.Is, ast.IsNot)) and (l is None or r is None) and isinstance(r if l is None else l, (SeqV, Num, Bool, StrV, ActV)):
+                    return neg          # a list / number / string object is not None
                 if t is not None:
                     return Bool(z3.Not(t) if neg else t, False, True)
             if isinstance(op, (ast.In, ast.NotIn)):
@@ -438,6 +480,8 @@ class HeapExec(NumExec):
     def contains(s, p, item, coll, e):
         if isinstance(coll, (set, tuple, list)) and isinstance(item, (StrV, str)):
             return z3.Or(*[s.unwrap("str", item) == s.unwrap("str", c) for c in coll])
+        if isinstance(coll, StrV) and isinstance(item, str):       # substring test on an abstract text
+            return str_contains(coll.t, strc(item))
         raise Unsupported(f"`in` at line {e.lineno}")
 
     def ev_NamedExpr(s, p, e):
@@ -889,10 +933,11 @@ class HeapExec(NumExec):
         spec = s.loops.get(lo)
         if spec is None:
             raise Unsupported(f"loop {lo} at line {n.lineno} has no invariant in the sidecar")
-        it = s.ev(p, n.iter)
         enum = False
         if isinstance(n.iter, ast.Call) and isinstance(n.iter.func, ast.Name) and n.iter.func.id == "enumerate":
             it = s.ev(p, n.iter.args[0]); enum = True
+        else:
+            it = s.ev(p, n.iter)
         custom = hasattr(it, "iter_length")          # iterable protocol of value extensions (e.g. np.nditer over a batch)
         if not isinstance(it, SeqV) and not custom:
             raise Unsupported(f"for over {type(it).__name__} at line {n.lineno}")
